@@ -30,7 +30,9 @@ VALUES = {
     "CKA_END_DATE": [b"20301231", b""],
     "CKA_ALLOWED_MECHANISMS": [["CKM_AES_GCM", "CKM_AES_CBC", "CKM_AES_ECB"], ["CKM_AES_CBC"], ["CKM_RSA_PKCS", "CKM_SHA256_RSA_PKCS"], []],
     "CKA_WRAP_TEMPLATE": [[("CKA_EXTRACTABLE", True)], [("CKA_CLASS", "CKO_SECRET_KEY"), ("CKA_LABEL", b"wt")], [("CKA_LABEL", b"only")],
-                          [("CKA_KEY_TYPE", "CKK_AES"), ("CKA_SENSITIVE", False), ("CKA_ID", b"")]],
+                          [("CKA_KEY_TYPE", "CKK_AES"), ("CKA_SENSITIVE", False), ("CKA_ID", b"")],
+                          # elements that the store keeps as byte strings whatever their PKCS#11 type (a nested mechanism list, a flag outside the fixed lists)
+                          [("CKA_ALLOWED_MECHANISMS", ["CKM_AES_ECB", "CKM_AES_CBC"]), ("CKA_EXTRACTABLE", True)], [("CKA_DESTROYABLE", False), ("CKA_LABEL", b"nested")]],
     "CKA_UNWRAP_TEMPLATE": [[("CKA_SENSITIVE", True)], [("CKA_KEY_TYPE", "CKK_AES"), ("CKA_ID", b"ut")], [("CKA_CLASS", "CKO_SECRET_KEY"), ("CKA_ID", b"last-is-bytes" * 3)]],
 }
 BOOLS = [True, False]
@@ -1082,6 +1084,13 @@ class World:
                     if t not in attrs:
                         raise self.V("%s: attribute %s of object %d (%s) is returned by the API but is not in its file" % (why, K.name("CKA", t), o.oid, o.cls))
                     dv = attrs[t]
+                    if isinstance(dv, list) and kind_of(t) == "tpl":
+                        # a mechanism list nested in a template is kept by the store as a byte string of native 8-byte integers
+                        import struct as _st
+                        dv = [(a_, sorted(_st.unpack("<%dQ" % (len(bytes.fromhex(b_)) // 8), bytes.fromhex(b_))) if (a_ == K.CKA_ALLOWED_MECHANISMS and isinstance(b_, str)) else b_)
+                              for a_, b_ in dv]
+                        # ... and a flag outside the store's fixed boolean list as a one-byte string
+                        dv = [(a_, (b_ != "00") if (kind_of(a_) == "bool" and isinstance(b_, str)) else b_) for a_, b_ in dv]
                     nd = sorted((a_, b_) for a_, b_ in dv) if (isinstance(dv, list) and kind_of(t) == "tpl") else dv
                     if self._norm_model(t, mv) != nd:
                         raise self.V("%s: attribute %s of object %d (%s): file decodes to %r, the API returned %r" % (
